@@ -146,6 +146,8 @@ class Engine:
         self.typeids = {}
         self.budget_s = 1e9
         self.watch_all = False
+        self.harness_funcs = set()
+        self.watch_enabled = False
         self.harness_globals = set()
         self.cex_limit = 60
         self.slowlog = None
@@ -279,11 +281,16 @@ class Engine:
         if write:
             if o.const:
                 raise MemError("write to constant " + o.name)
+            if st.user.get("watch_globals"):
+                self.res.watched_writes = getattr(self.res, "watched_writes", 0) + 1
+                if o.kind == "global" and st.user.get("held"):
+                    self.res.watched_global_writes_locked = getattr(self.res, "watched_global_writes_locked", 0) + 1
             if o.kind == "global" and st.user.get("watch_globals") and not st.user.get("held"):
                 gn = re.sub(r"\.\d+$", "", o.name[1:])
                 gg = self.mod.globals.get(o.name[1:])
                 if gn not in self.harness_globals and not gn.startswith(("_ZGV", "_ZTV", "_ZTT", "vtable")) and \
-                        not (gg is not None and gg.thread_local):
+                        not (gg is not None and gg.thread_local) and \
+                        re.sub(r"\.\d+$", "", st.frames[-1].func.name) not in self.harness_funcs:
                     self.guard_violation(st, P_dem(gn), "any lock (process-wide mutable state)", True, gsym=o.name[1:])
             o = self.wobj(st, p.obj)
         return o, off
@@ -758,7 +765,6 @@ class Engine:
         if f is None or f.is_decl:
             raise EngineError("entry function %s not defined" % entry)
         st = State()
-        self.watch_all = bool(os.environ.get("VF_WATCH_ALL"))     # experiment: watch every harness from its entry on
         fr = Frame(f)
         for (t, n), a in zip(f.params, args):
             fr.locals[n] = a
@@ -883,6 +889,7 @@ class Engine:
             if self.watch_all and len(st.frames) == 1 and not st.user.get("watch_started"):
                 st.user["watch_started"] = True
                 st.user["watch_globals"] = True
+                self.res.watch_regions = getattr(self.res, "watch_regions", 0) + 1
             if st.steps > self.max_steps:
                 raise EngineError("instruction budget exceeded on one path (%d) in %s" % (self.max_steps, fr.func.name))
             try:
